@@ -196,3 +196,9 @@ for _cls, _file, _fn, _given in [('MSSMNoFV_onshell', MU, 'calculate_uncertainty
             """lemma (B): the overload that computes a_mu itself returns exactly what the overload given those a_mu values returns"""
             _overload_agreement(ctx, cls, file, fn, given)
     _mk()
+
+
+def fidelity(tier, seed):
+    """A-FRONT guard: MSSM a_mu and mass-matrix functions, interpreter (float mode) vs compiled real code on real spectra"""
+    from gm2v import fidelity as _fid
+    return _fid.mssm_model_guard(seed=seed)
